@@ -102,6 +102,7 @@ const HELPERS: &[(&str, &str)] = &[
     ("vfill!", "(define (vfill! v i x) (if (< i (vector-length v)) (vfill2 v i x) x))"),
     ("make-ctr0", "(define (make-ctr0) (define n 0) (lambda () (set! n (+ n 1)) n))"),
     ("rest-id", "(define (rest-id . r) r)"),
+    ("call-it", "(define (call-it f) (f))"),
     (
         "make-ictr",
         "(define (make-ictr k) (define n k) (define (bump) (set! n (+ n 1)) n) (bump) (lambda () (bump) n))",
@@ -1130,6 +1131,35 @@ impl Gen {
                 self.emit(sx, kind, vec![name], w);
                 true
             }
+            37 => {
+                // every closure of a list called once, through the list walker
+                let Some(name) = self.pick_name(Role::CounterList) else { return false };
+                self.need("each");
+                self.need("call-it");
+                self.emit(call("each", vec![sym("call-it"), sym(&name)]), "each-over-closure-list", vec![name], true);
+                true
+            }
+            38 => {
+                // a container name is redefined: the old object lives on through its other aliases
+                let role = if self.rng.chance(1, 2) { Role::VecList } else { Role::Vec };
+                let names = self.names_with(role);
+                if names.len() < 2 {
+                    return false;
+                }
+                let name = self.rng.pick(&names).clone();
+                let sx = if role == Role::Vec {
+                    let k = self.small_lit();
+                    call("vector", vec![int(k), int(k + 1)])
+                } else {
+                    // a fresh list over some existing vector
+                    match self.pick_name(Role::Vec) {
+                        Some(v) => call("cons", vec![sym(&v), quote(list(vec![]))]),
+                        None => return false,
+                    }
+                };
+                self.emit(list(vec![sym("define"), sym(&name), sx]), "redefine-container", vec![name], true);
+                true
+            }
             29 => {
                 // a closure stored in a vector slot, then called through the slot
                 let Some((path, id, mut roots)) = self.vec_path() else { return false };
@@ -1663,6 +1693,18 @@ impl Gen {
                     true,
                 ))
             }
+            12 => {
+                // the fault is the argument handed to the setter half of a getter/setter pair
+                if !int_valued {
+                    return None;
+                }
+                let p = self.pick_name(Role::Cell)?;
+                Some((
+                    list(vec![call("car", vec![call("cdr", vec![sym(&p)])]), e]),
+                    "setter-argument".into(),
+                    true,
+                ))
+            }
             8 => {
                 // many frames between the fault and the top level, none of them a tail call
                 if !int_valued {
@@ -1712,7 +1754,7 @@ impl Gen {
         let depth = self.rng.pick_weighted(&[2, 5, 3]);
         let mut top = depth == 0;
         for _ in 0..depth {
-            let ctx = self.rng.upto(12);
+            let ctx = self.rng.upto(13);
             if let Some((ne, label, iv)) = self.wrap(e.clone(), ctx, int_valued) {
                 e = ne;
                 int_valued = iv;
@@ -1753,7 +1795,7 @@ pub fn generate_a(seed: u64, quick: bool, faults: bool) -> Value {
     let hash_seed = rng.next_u64() | 1;
     // swarm configuration
     let steps = if quick { rng.range(10, 40) } else { rng.range(10, 60) } as usize;
-    let nops = 37;
+    let nops = 39;
     let mut weights: Vec<u32> = (0..nops).map(|_| if rng.chance(1, 4) { 0 } else { rng.range(1, 6) as u32 }).collect();
     if weights.iter().all(|w| *w == 0) {
         weights[0] = 1;
